@@ -207,10 +207,14 @@ class World:
 
     # ------------------------------------------------------------ views
     def box_dagger(self, interp, b):
-        """contract of Box.dagger / Box[::-1] (assumed here, verified per concrete class):
-        swaps dom and cod and is an involution"""
+        """call-site contract of Box.dagger / Box[::-1]: swaps dom and cod and is an involution.  Verified on the four real
+        bodies (contracts/daggers.py): dom / cod exchanged, and twice gives back every field __eq__ compares; that this
+        fieldwise involution is an equality of boxes rests on L-box (a box is determined by the fields its __eq__
+        compares: C03's obligations)"""
         ex = interp.ex
-        ex.used.add('axiom: Box.dagger exchanges dom and cod and is an involution')
+        for u in ('cat.Box.dagger', 'monoidal.Swap.dagger', 'rigid.Cup.dagger', 'rigid.Cap.dagger'):
+            ex.used.add(u)
+        ex.used.add('L-box: a box is determined by the fields its __eq__ compares (C03), so the fieldwise involution of dagger is an equality')
         d = T.bdag(b.t)
         ex.assume(T.bdom(d) == T.bcod(b.t))
         ex.assume(T.bcod(d) == T.bdom(b.t))
@@ -486,6 +490,10 @@ class World:
             return fn.fn(interp, *args, **kwargs)
         if isinstance(fn, VClosure):
             q = fn.qualname
+            if q.endswith('.recursive_free_symbols'):
+                # cat.Box.__init__'s local helper: the free symbols of the payload are outside the model (C14's suites)
+                interp.ex.used.add('assumed: the free symbols of a payload (cat.Box.__init__.recursive_free_symbols) are outside the model')
+                return VOpaque('free symbols')
             if q in self.contracts and interp.ex.verifying != q and not self.spec_mode_inline(q):
                 return self.apply(interp, q, args, kwargs)
             return interp.call_function(fn.node, fn.env, args, kwargs, q,
@@ -689,6 +697,10 @@ class World:
             return VBool(ex.truth(args[0]))
         if cls == 'py.str':
             return VStr(None)        # printed forms are outside the model
+        if cls == 'py.type' and len(args) == 1 and isinstance(args[0], VObject) and args[0].cls:
+            return VClass(args[0].cls)
+        if cls == 'py.type' and len(args) == 1 and isinstance(args[0], VBox) and getattr(args[0], 'pycls', None):
+            return VClass(args[0].pycls)
         if cls == 'py.type' and len(args) == 1 and isinstance(args[0], VTy):
             # the class of a type: the model does not tell monoidal.Ty from its subclasses; what is done with the class
             # (calling it without arguments, its upgrade) is the same for all of them up to the verified upgrade contracts
@@ -731,6 +743,7 @@ class World:
         ('diagram', 'interchange'): 'rewriting.interchange',
         ('diagram', 'dagger'): 'cat.Arrow.dagger',
         ('ty', 'tensor'): 'monoidal.Ty.tensor',
+        ('diagram', 'cups'): 'rigid.cups', ('diagram', 'caps'): 'rigid.caps',
     }
     CLASS_METHODS = {
         ('monoidal.Diagram', 'id'): 'monoidal.Id.__init__',
@@ -856,6 +869,8 @@ class World:
             if key in self.METHODS:
                 return self.apply(interp, self.METHODS[key], [recv] + list(args), kwargs)
         key = (recv.kind, name)
+        if key in (('diagram', 'cups'), ('diagram', 'caps')):
+            return self.apply(interp, self.METHODS[key], list(args), kwargs)       # static methods: no receiver
         if key in self.METHODS:
             return self.apply(interp, self.METHODS[key], [recv] + list(args), kwargs)
         raise Unsupported('method .%s of %s' % (name, recv.kind))
@@ -899,6 +914,8 @@ class World:
                 return VDiagram(a['_dom'], a['_cod'], a['_boxes'], VList(offs.segs, False), a['_layers'])
             if kind == 'layer':
                 return VLayer(a['_left'], a['_box'], a['_right'])
+            if kind == 'box' and cls in ('monoidal.Box', 'rigid.Box'):
+                return obj          # a plain box as the record of its fields (name, dom, cod, data, dagger flag, ...)
         except KeyError as e:
             raise Unsupported('constructor of %s did not set %s' % (cls, e))
         raise Unsupported('record of ' + cls)
